@@ -4,9 +4,12 @@ P=$1; T=$2; shift 2
 cd /repo && git diff --quiet || { echo "/repo not clean"; exit 9; }
 git apply "$P" || { echo "patch does not apply"; exit 8; }
 cd /verif
+# the checks rewrite evidence/<id>.json; what is committed there must describe the unchanged tree, so keep a copy
+SAVE=$(mktemp -d); cp evidence/C*.json $SAVE/ 2>/dev/null
 for prop in "$@"; do
   out=$(./check $prop $T 2>&1); rc=$?
   echo "[$prop rc=$rc] $(echo "$out" | grep -E "VIOLATION|INCONCLUSIVE" | head -2 | tr '\n' ' ' | cut -c1-200)"
   echo "$out" | grep "what:" | head -2 | cut -c1-300
 done
 git -C /repo checkout -- . ; git -C /repo clean -fdq
+cp $SAVE/C*.json evidence/ 2>/dev/null; rm -rf $SAVE
